@@ -6,5 +6,6 @@ cd /verif
 for i in 01 02 03 04 05 06 07 08 09 10 11 12 13 14 15 16 17 18 19; do
   out=$(/venv/bin/python -m sa.check C$i 2>&1); rc=$?
   if [ $rc -ne 0 ]; then echo "  C$i rc=$rc"; echo "$out" | grep -E "^\s+ofxtools/|ANALYSIS-ERROR" | cut -c1-230 | head -${2:-3}; fi
+  echo "$out" | grep UNDECIDED | cut -c1-200
 done
 cd /repo && git checkout -- .
